@@ -10,6 +10,7 @@ WHICH spec at WHICH place of the line.
 """
 import z3
 
+from pyvc import ext_C01
 from pyvc import models as M
 from pyvc.engine import ProgExc, Unsupported
 from pyvc.models import FmtPiece, SymStr
@@ -468,3 +469,240 @@ def lemmas():
         ("written-then-rebased-parent-is-the-original-parent-and-roots-stay-roots", wf, pid_back == p),
         ("a-written-non-root-parent-is-never-the-root-marker", wf + [p >= 0], pid_written != -1),
     ]
+
+
+# ===========================================================================
+# column -> array construction: Tree.__init__, DictSWC.__init__, Tree.from_data_frame
+TREE = "swcgeom/core/tree.py"
+PAD = dict(id=0, type=0, x=0, y=0, z=0, r=1, pid=0)  # filling value of a column that is GIVEN but shorter than n (radius: 1); an absent column is all zeros
+
+
+def _np32(col):
+    import numpy as np
+
+    return np.dtype("int32") if col in INT_COLS else np.dtype("float32")
+
+
+def _np64(col):
+    import numpy as np
+
+    return np.dtype("int64") if col in INT_COLS else np.dtype("float64")
+
+
+def _kind(col):
+    return "int" if col in INT_COLS else "real"
+
+
+def register_build(R):
+    import numpy as np
+    from pyvc.values import Obj, PDict
+    from swcgeom.core.swc import DictSWC
+    from swcgeom.core.swc_utils import get_names, get_types
+    from swcgeom.core.tree import Tree
+
+    names = get_names()
+    NCOLS = names.cols()
+
+    def column_is(arr, n, given, pad, col):
+        """arr has exactly n entries; entry i is given[i] where the given column has one, else the padding value"""
+        i = z3.Int(fresh_name("i"))
+        k = _kind(col)
+        want = to_z3(0, k) if given is None else z3.If(i < given.nz(), to_z3(given.get(i), k), to_z3(pad, k))
+        return z3.And(arr.nz() == to_z3(n, "int"), z3.ForAll([i], z3.Implies(z3.And(i >= 0, i < arr.nz()), to_z3(arr.get(i), k) == want)))
+
+    def stored(E, v, o):
+        d = v["self"]
+        cm = d.fields.get("comments")
+        want_cm = [] if o["comments"] is None else list(o["comments"].items)
+        return (isinstance(cm, PList) and cm.items is not None and len(cm.items) == len(want_cm) and all(a is b for a, b in zip(cm.items, want_cm))
+                and (o["comments"] is None or cm is not v["comments"])  # a list of its own: later edits of the tree's comments do not reach the caller's list
+                and d.fields.get("source") == o["source"] and d.fields.get("names") == names and d.fields.get("types") == get_types())
+
+    # ---------------------------------------------------------------- Tree.__init__
+    def init_setup(widths, free=(), extra=("e",), drop=(), comments=True):
+        def f(S):
+            ext_C01.install()
+            n = S.int("n_nodes")
+            S.assume(n.z >= 0)
+            cols = {}
+            for c in NCOLS + list(extra):
+                if c in drop:
+                    continue
+                m = S.int(f"len_{c}") if c in free else n  # a free length: shorter than n (padded), equal, or longer (cut)
+                a = S.arr(_kind(c), n=m, name=c, dtype=(_np64(c) if widths == 64 else _np32(c)))
+                a.frozen = True
+                cols[c] = a
+            c0, c1 = S.opaque({}, "comment0"), S.opaque({}, "comment1")
+            cm = PList([c0, c1]) if comments else None
+            if cm is not None:
+                cm.frozen = True
+            return dict(self=S.obj(Tree), n_nodes=n, source="a.swc", comments=cm, names=None, kwargs=PDict(dict(cols)), g_cols=dict(cols), g_extra=list(extra))
+
+        return f
+
+    def init_cols(E, v, o):
+        nd = v["self"].fields.get("ndata")
+        if not isinstance(nd, PDict) or nd.items is None or list(nd.items) != NCOLS + v["g_extra"]:
+            return False  # the seven SWC columns in format order, then the extra columns in the order given
+        out = []
+        for c in NCOLS:
+            a, g = nd.items[c], v["g_cols"].get(c)
+            if not isinstance(a, SArr):
+                return False
+            if g is None and c == "id":
+                g = SArr(z3.Lambda([z3.Int("k")], z3.Int("k")), o["n_nodes"].z, "int")      # default numbering 0..n-1
+            if g is None and c == "pid":
+                g = SArr(z3.Lambda([z3.Int("k")], z3.Int("k") - 1), o["n_nodes"].z, "int")  # default parent: the preceding node (a chain), root -1
+            out.append(column_is(a, o["n_nodes"], g, PAD[c], c))
+        return z3.And(*out)
+
+    def init_dtypes(E, v, o):
+        nd = v["self"].fields["ndata"].items
+        return all(isinstance(nd[c], SArr) and nd[c].dtype == _np32(c) for c in NCOLS)
+
+    def init_extra(E, v, o):
+        nd = v["self"].fields["ndata"].items
+        return all(nd.get(c) is v["g_cols"][c] for c in v["g_extra"])
+
+    R.add(
+        f"{TREE}:Tree.__init__",
+        prop="C01",
+        variants={
+            "all-columns,64-bit(as-a-parsed-frame-hands-them-over),length-n": init_setup(64),
+            "all-columns,32-bit,id-and-x-of-any-length(short:padded,long:cut)": init_setup(32, free=("id", "x")),
+            "all-columns,64-bit,type-r-pid-of-any-length,no-comments": init_setup(64, free=("type", "r", "pid"), comments=False),
+            "no-id-no-pid:default-numbering-and-chain-parents": init_setup(32, extra=(), drop=("id", "pid")),
+            "only-id-and-pid:attributes-zero": init_setup(64, extra=(), drop=("type", "x", "y", "z", "r")),
+        },
+        requires=["size-non-negative :: n_nodes >= 0"],
+        ensures=[
+            ("every-SWC-column-has-n-entries:the-given-values-in-order-then-the-padding-value", init_cols),
+            ("int-columns-stored-as-int32-float-columns-as-float32", init_dtypes),
+            ("extra-columns-kept-as-given-after-the-seven-SWC-columns", init_extra),
+            ("source-names-types-stored-comments-copied-into-an-own-list", stored),
+        ],
+        notes="n_nodes, every column's length and content symbolic; given arrays are frozen (a write = failed frame obligation)",
+    )
+
+    # ---------------------------------------------------------------- DictSWC.__init__
+    def dict_setup(comments, names_given):
+        def f(S):
+            n = S.int("n")
+            S.assume(n.z >= 0)
+            cols = {}
+            for c in NCOLS + ["e"]:
+                a = S.arr(_kind(c), n=n, name=c, dtype=_np32(c))
+                a.frozen = True
+                cols[c] = a
+            c0, c1 = S.opaque({}, "comment0"), S.opaque({}, "comment1")
+            cm = PList([c0, c1]) if comments else None
+            if cm is not None:
+                cm.frozen = True
+            return dict(self=S.obj(DictSWC), source="a.swc", comments=cm, names=(names if names_given else None), kwargs=PDict(dict(cols)), g_cols=dict(cols))
+
+        return f
+
+    def dict_cols(E, v, o):
+        nd = v["self"].fields.get("ndata")
+        return (isinstance(nd, PDict) and nd.items is not None and list(nd.items) == list(v["g_cols"])
+                and all(nd.items[c] is v["g_cols"][c] for c in nd.items))
+
+    R.add(
+        f"{SWC}:DictSWC.__init__",
+        prop="C01",
+        variants={f"comments-{'given' if c else 'omitted'},names-{'given' if nm else 'omitted'}": dict_setup(c, nm) for c in (True, False) for nm in (True, False)},
+        ensures=[
+            ("one-column-per-keyword-in-the-given-order-holding-the-very-array-given", dict_cols),
+            ("source-names-types-stored-comments-copied-into-an-own-list", stored),
+        ],
+        notes="the columns are the arrays handed over (no copy, no conversion): values, order and dtype are the caller's",
+    )
+
+    # ---------------------------------------------------------------- Tree.from_data_frame
+    def frame_setup(extra, comments=True):
+        def f(S):
+            ext_C01.install()
+            cols = {c: _kind(c) for c in NCOLS + list(extra)}
+            df = S.dframe(cols, name="frame")
+            for c, a in df.cols.items():
+                a.dtype = _np64(c)  # what pandas makes of the parsed Python ints / floats
+                a.frozen = True
+            df.frozen = True
+            c0, c1 = S.opaque({}, "comment0"), S.opaque({}, "comment1")
+            cm = PList([c0, c1]) if comments else None
+            if cm is not None:
+                cm.frozen = True
+            return dict(df=df, source="a.swc", comments=cm, names=None, g_extra=list(extra))
+
+        return f
+
+    def as_init(v, o):
+        t = v["result"]
+        return dict(self=t, comments=v["comments"]), dict(source=o["source"], comments=o["comments"])
+
+    def frame_is_tree(E, v, o):
+        t = v["result"]
+        return isinstance(t, Obj) and t.cls is Tree
+
+    def frame_cols(E, v, o):
+        t, df = v["result"], o["df"]
+        nd = t.fields.get("ndata")
+        if not isinstance(nd, PDict) or nd.items is None or list(nd.items)[:7] != NCOLS:
+            return False
+        out = []
+        for c in NCOLS:
+            a = nd.items[c]
+            if not isinstance(a, SArr):
+                return False
+            out.append(column_is(a, zint(df.n), df.cols[c], PAD[c], c))  # the frame's column has n entries: no padding, no cut
+        return z3.And(*out)
+
+    def frame_dtypes(E, v, o):
+        nd = v["result"].fields["ndata"].items
+        return all(isinstance(nd[c], SArr) and nd[c].dtype == _np32(c) for c in NCOLS)
+
+    def frame_fresh(E, v, o):
+        nd = v["result"].fields["ndata"]
+        return nd.uid not in E.entry_uids and all(nd.items[c].uid not in E.entry_uids for c in NCOLS)
+
+    def frame_extra(E, v, o):
+        # FINDING: Tree.from_data_frame hands only names.cols() to Tree(...): a frame read with extra_cols=[...] (Tree.from_swc(f,
+        # extra_cols=..), Tree.from_eswc) loses the requested columns without any message; to_eswc() of such a tree raises KeyError
+        t, df = v["result"], o["df"]
+        nd = t.fields["ndata"].items
+        out = []
+        for c in v["g_extra"]:
+            if c not in nd or not isinstance(nd[c], SArr):
+                return False
+            out.append(column_is(nd[c], zint(df.n), df.cols[c], 0, c))
+        return list(nd) == NCOLS + v["g_extra"] and (z3.And(*out) if out else True)
+
+    def frame_stored(E, v, o):
+        return stored(E, dict(self=v["result"], comments=v["comments"]), o)
+
+    R.add(
+        f"{TREE}:Tree.from_data_frame",
+        prop="C01",
+        variants={
+            "seven-columns,comments": frame_setup(()),
+            "seven-columns,no-comments": frame_setup((), comments=False),
+            "seven-columns+one-requested-extra-column": frame_setup(("e",)),
+        },
+        ensures=[
+            ("a-Tree-is-returned", frame_is_tree),
+            ("n-nodes-is-the-number-of-rows-and-every-SWC-column-holds-the-frame's-values-in-row-order", frame_cols),
+            ("int-columns-stored-as-int32-float-columns-as-float32", frame_dtypes),
+            ("the-tree-owns-fresh-arrays(64-bit-frame-columns-are-converted-copies)", frame_fresh),
+            ("extra-columns-of-the-frame-are-kept", frame_extra),  # FINDING (fails for the variant with an extra column)
+            ("source-names-types-stored-comments-copied-into-an-own-list", frame_stored),
+        ],
+        notes="number of rows and all cell values symbolic; frame and its columns frozen (a write = failed frame obligation)",
+    )
+
+
+_register_w = register
+
+
+def register(R):  # noqa: F811
+    _register_w(R)
+    register_build(R)
